@@ -7,7 +7,16 @@ package literal
 // C10: a Go integer offered as a value is stored exactly (nodeInt is the mathematical value of the
 // resulting node) or rejected -- never silently altered.  Only the fast path (the type switch) is
 // verified; the reflection-based slow path is abstracted (anyAssemble is trusted to return some assembler).
+//@ pure func storedExactly(v any, n ipld.Node) bool =
+//@     (v is int ==> nodeInt(n) == v.(int)) && (v is int8 ==> nodeInt(n) == v.(int8)) && (v is int16 ==> nodeInt(n) == v.(int16))
+//@  && (v is int32 ==> nodeInt(n) == v.(int32)) && (v is int64 ==> nodeInt(n) == v.(int64))
+//@  && (v is uint ==> nodeInt(n) == v.(uint)) && (v is uint8 ==> nodeInt(n) == v.(uint8)) && (v is uint16 ==> nodeInt(n) == v.(uint16))
+//@  && (v is uint32 ==> nodeInt(n) == v.(uint32)) && (v is uint64 ==> nodeInt(n) == v.(uint64))
+//@  && (v is datamodel.Node ==> n == v.(datamodel.Node))
+//@
 //@ func Any
+//@   ensures [C10] exact: err == nil ==> storedExactly(v, res)
+//@   ensures [C10] nonnil: err == nil ==> res != nil
 //@   ensures [C10] int: v is int && err == nil ==> nodeInt(res) == v.(int)
 //@   ensures [C10] int8: v is int8 && err == nil ==> nodeInt(res) == v.(int8)
 //@   ensures [C10] int16: v is int16 && err == nil ==> nodeInt(res) == v.(int16)
